@@ -22,3 +22,28 @@ Proof.
   exists sched. unfold quiescent in Q.
   destruct (serial sem (compile_l tb c) order sh0 progs) as [[shS todoS] doneS]. exact Q.
 Qed.
+
+(* both directions in one statement: the results at quiescence over ALL schedules are exactly the
+   serial ones *)
+Theorem quiescent_results_exactly_serial :
+  forall tb, table_covered tb = true ->
+  forall c progs sh0 sh (done : nat -> list rv),
+    (exists sched, let s := conc_run tb c progs sh0 sched in
+                   finished s /\ m_sh s = sh /\ forall t, t_done (m_thr s t) = done t)
+    <->
+    (exists order, let '(shS, todoS, doneS) := serial_run tb c progs sh0 order in
+                   shS = sh /\ (forall t, doneS t = done t) /\ forall t, todoS t = []).
+Proof.
+  intros tb T c progs sh0 sh done. split.
+  - intros [sched [F [Es Ed]]].
+    destruct (serialisable_model tb T c progs sh0 sched F) as [order H]. exists order.
+    destruct (serial_run tb c progs sh0 order) as [[shS todoS] doneS].
+    destruct H as [H1 [H2 H3]]. split; [congruence|]. split; [|exact H3].
+    intro t. rewrite <- H2. apply Ed.
+  - intros [order H]. destruct (serial_orders_realised tb T c progs sh0 order) as [sched Q].
+    exists sched. destruct (serial_run tb c progs sh0 order) as [[shS todoS] doneS].
+    destruct H as [H1 [H2 H3]]. destruct Q as [_ [Q2 Q3]]. split; [|split].
+    + intro t. rewrite (Q3 t). simpl. split; [reflexivity|apply H3].
+    + congruence.
+    + intro t. rewrite (Q3 t). simpl. apply H2.
+Qed.
